@@ -325,6 +325,9 @@ func unmarshalObject(buf []byte, atys map[string]cty.Type, path cty.Path) (cty.V
 				return cty.NilVal, path.NewErrorf("failed to read object key: %s", err)
 			}
 
+			// attribute names of object types are NFC-normalized, like all
+			// cty strings, so the key has to be looked up in that form
+			k = cty.NormalizeString(k)
 			aty, ok := atys[k]
 			if !ok {
 				return cty.NilVal, objPath.NewErrorf("unsupported attribute %q", k)
